@@ -19,6 +19,7 @@ mod gr;
 mod c05;
 mod c01;
 mod c03;
+mod c09;
 
 pub type Gen = fn(&mut util::Rng, &str) -> String;
 pub type Exec = fn(&[&str]) -> String;
@@ -38,6 +39,9 @@ fn table(prop: &str) -> Option<(Gen, Exec)> {
         "C01" => Some((c01::gen, c01::exec)),
         "C02" => Some((c01::gen02, c01::exec)),
         "C03" => Some((c03::gen, c03::exec)),
+        "C09" => Some((c09::gen09, c09::exec09)),
+        "C18" => Some((c09::gen18, c09::exec18)),
+        "C20" => Some((c09::gen20, c09::exec20)),
         "C12" => Some((c13::gen12, c13::exec)),
         _ => None,
     }
